@@ -204,6 +204,17 @@ def regenerate_leaves():
     return nop2coq.write(os.path.join(COQ, 'Gen.v'), BUILD)
 
 
+def regenerate_bounded():
+    """the second translator: the method bodies of BoundedReader / BoundedWriter as terms of Imp.bstmt (coq/GenBounded.v);
+    returns the list of methods that were outside the translated subset (degraded)"""
+    import nop2coq_bounded
+    return nop2coq_bounded.write(os.path.join(COQ, 'GenBounded.v'))
+
+
+# checks whose theorems are about bounded_rops / bounded_wops and the entry frames built from them
+BOUNDED_BRIDGE = ('C05', 'C06', 'C07', 'C08', 'C16', 'C17')
+
+
 def check_proofs(ctx, files, bridge=True):
     """regenerates the translated leaf definitions, then (re)builds Bridge.v (model = translated code) and the given
     Properties files; returns (obligations, discharged, detail)"""
@@ -213,6 +224,11 @@ def check_proofs(ctx, files, bridge=True):
         files = ['Bridge.v'] + list(files)
     else:
         tr_ok, tr_why = True, ''       # the property does not depend on the translated leaves
+    deg = regenerate_bounded()         # GenBounded.v is part of the build in any case (setup builds everything)
+    if ctx.pid in BOUNDED_BRIDGE:
+        files = ['BridgeBounded.v'] + list(files)
+        if deg:
+            ctx.notes.append('translator (bounded): outside the translated C++ subset, tied by correspondence only on this run: ' + '; '.join(deg))
     targets = [f[:-2] + '.vo' for f in files]
     ok, lg = coq_make(targets)
     if not tr_ok:
@@ -221,7 +237,8 @@ def check_proofs(ctx, files, bridge=True):
     elif tr_why:
         ctx.notes.append('translator: outside the translated C++ subset, tied by correspondence only on this run: ' + tr_why)
     for f in files:
-        names = theorem_names(os.path.join(COQ, f)) if f != 'Bridge.v' else re.findall(r'^Lemma\s+(\w+)', open(os.path.join(COQ, f)).read(), re.M)
+        names = theorem_names(os.path.join(COQ, f)) if f not in ('Bridge.v', 'BridgeBounded.v') else re.findall(r'^  ?Lemma\s+(\w+)|^Lemma\s+(\w+)', open(os.path.join(COQ, f)).read(), re.M)
+        names = [n if isinstance(n, str) else (n[0] or n[1]) for n in names]
         obligations += len(names)
         vo = os.path.join(COQ, f[:-2] + '.vo')
         built = os.path.exists(vo) and os.path.getmtime(vo) >= os.path.getmtime(os.path.join(COQ, f))
@@ -234,7 +251,7 @@ def check_proofs(ctx, files, bridge=True):
     if ok:
         import tempfile
         for d in detail:
-            if d['file'] == 'Bridge.v' or d['status'] != 'proved':
+            if d['file'] in ('Bridge.v', 'BridgeBounded.v') or d['status'] != 'proved':
                 continue
             with tempfile.TemporaryDirectory(dir=BUILD) as td:
                 r = run(['timeout', '900', 'coqc', '-Q', '.', 'Nop', d['file'], '-o', os.path.join(td, d['file'][:-2] + '.vo')], cwd=COQ, timeout=1000)
